@@ -176,6 +176,38 @@ def _alias_value(v: ast.AST) -> bool:
     return False
 
 
+class _IndexedComp(ast.NodeTransformer):
+    """`[E(v) for v in X[:n]][k]` (k a constant, 0 <= k < n when there is a slice; E call-free) is `E(X[k])`: picking the
+    k-th element of a comprehension is computing it for the k-th item."""
+    def visit_Subscript(self, node):
+        self.generic_visit(node)
+        v = node.value
+        k = node.slice.value if isinstance(node.slice, ast.Constant) and isinstance(node.slice.value, int) and not isinstance(node.slice.value, bool) else None
+        if k is None or k < 0 or not isinstance(v, ast.ListComp) or len(v.generators) != 1:
+            return node
+        g = v.generators[0]
+        if g.ifs or g.is_async or not isinstance(g.target, ast.Name) or any(isinstance(x, (ast.Call, ast.NamedExpr)) for x in ast.walk(v.elt)):
+            return node
+        it = g.iter
+        if isinstance(it, ast.Subscript) and isinstance(it.slice, ast.Slice):
+            sl = it.slice
+            if sl.lower is not None or sl.step is not None or not (isinstance(sl.upper, ast.Constant) and isinstance(sl.upper.value, int) and k < sl.upper.value):
+                return node
+            it = it.value
+        import copy as _c
+        item = ast.Subscript(_c.deepcopy(it), ast.Constant(k), ast.Load())
+        tname = g.target.id
+
+        class S(ast.NodeTransformer):
+            def visit_Name(self, n):
+                return ast.copy_location(_c.deepcopy(item), n) if n.id == tname and isinstance(n.ctx, ast.Load) else n
+        return ast.copy_location(S().visit(_c.deepcopy(v.elt)), node)
+
+
+def simplify_indexed(e: ast.AST) -> ast.AST:
+    return ast.fix_missing_locations(_IndexedComp().visit(e))
+
+
 def expand_single_defs(fn: ast.AST, e: ast.AST, depth: int = 4, skip=(), aliases_only: bool = False) -> ast.AST:
     """`e` with every read of a local that `fn` binds exactly once replaced by the value it is bound to (recursively):
     the expression the code computes, written without its temporaries.  For matching only."""
@@ -194,4 +226,4 @@ def expand_single_defs(fn: ast.AST, e: ast.AST, depth: int = 4, skip=(), aliases
 
         def visit_Lambda(self, n):
             return n
-    return X(depth).visit(copy.deepcopy(e))
+    return simplify_indexed(X(depth).visit(copy.deepcopy(e)))
